@@ -189,6 +189,10 @@ def main(tier):
         tiny = [r for r in small if 'trust_username' not in r]
         for x, y, z in itertools.product(tiny, repeat=3):
             tables.append(([('b2', x), ('A1', y), ('C3', z)], '', False))
+    # hostname globs that the address TEXT would satisfy: a client the server reports as having no host name (`d`) has none, it must not match them
+    for pat in ('*.*', '?*', '1*', '*:*', '[0-9]*'):
+        tables.append(([('r1', {'hostname': pat, 'class': 'byname'}), ('r2', {'class': 'rest'})], '', True))
+        tables.append(([('r1', {'hostname': pat, 'trust_username': 'yes'})], '', True))
     # non-rule children must be skipped, whatever their name
     for r in (R[0], R[5], R[127]):
         tables.append(([('m5', r)], '  dummy "bogus line"\n  "a0" "not a rule"\n  zz ( "a", "list" )\n', True))
